@@ -3,6 +3,7 @@ package diff
 import (
 	"fmt"
 	"reflect"
+	"sort"
 	"strings"
 
 	"github.com/go-openapi/spec"
@@ -65,6 +66,11 @@ func (sd *SpecAnalyser) Analyse(spec1, spec2 *spec.Swagger) error {
 	sd.analyseResponseParams()
 	sd.analyseExtensions(spec1, spec2)
 	sd.AnalyseDefinitions()
+
+	// every phase above ranges over maps: order the result so that reports are reproducible
+	sort.SliceStable(sd.Diffs, func(i, j int) bool {
+		return sd.Diffs[i].String() < sd.Diffs[j].String()
+	})
 
 	return nil
 }
